@@ -3,149 +3,268 @@ package main
 import (
 	"bytes"
 	"go/ast"
+	"go/parser"
 	"go/printer"
 	"go/token"
-	"sort"
+	"os"
+	"path/filepath"
 	"strings"
 )
 
 // genStdAppsOrder (C01 / C03, round h): the ORDER facts lean/CaddyModel/C01/StdApps.lean is built on, read off the
-// source — a marker per interesting call / assignment, in source order, function literals included:
+// source as EVENT SEQUENCES OF THE CALL-INLINED BODY: the function is walked in source order; a call to an unexported
+// function / method of the same package (resolved by name, only if the name is unambiguous in the package), to a local
+// closure, or an immediately invoked function literal is replaced by the walk of the callee's body, transitively; the
+// events are the calls and assignments the model talks about (they are atomic: never followed). An extract-function or
+// inline-function rewrite leaves every sequence as it is; moving, dropping or adding an event does not.
 //
-//	caddy.go run            provisionContext, provisionAdminRouters, a.Start, emitEvent("started"), finishSettingUp, unsyncedStop
-//	caddy.go unsyncedStop   emitEvent("stopping"), a.Stop, cancelFunc
-//	caddy.go Stop           unsyncedStop BEFORE `currentCtx = Context{}` (modules are cleaned up while the stopping
-//	                        context is still caddy.ActiveContext())
+//	caddy.go run            provisionContext, provisionAdminRouters, the failure exits (cancelFunc, defaults back), app.Start /
+//	                        app.Stop of the start loop, emitEvent("started") after it and before finishSettingUp, whose
+//	                        failure ends in unsyncedStop's events
+//	caddy.go unsyncedStop   emitEvent("stopping"), app.Stop, cancelFunc
+//	caddy.go Stop           the modules are cleaned up (cancelFunc) BEFORE `currentCtx = Context{}`
 //	caddy.go Validate       run, cancelFunc, restoreDefaultStorage, restoreDefaultLogger
-//	caddytls TLS.Cleanup    where it looks for its successor and under which condition it believes to have one
-//	caddytls TLS.Provision  CacheUnmanagedTLSCertificate, then the hash is remembered in t.loaded (unconditionally)
-func genStdAppsOrder() string {
-	fsetC, fc := parseFile("caddy.go")
-	markers := func(fset *token.FileSet, fd *ast.FuncDecl, pick func(n ast.Node) string) []string {
-		type hit struct {
-			pos token.Pos
-			s   string
+//	caddytls TLS.Cleanup    where it looks for its successor and under which condition it believes to have one (searched
+//	                        in the inlined body)
+//	caddytls TLS.Provision  the block (of the inlined body) that caches one loaded certificate: CacheUnmanagedTLSCertificate,
+//	                        error check, the hash remembered in t.loaded unconditionally
+
+type inlPkg struct {
+	fset    *token.FileSet
+	funcs   map[string][]*ast.FuncDecl // plain functions by name
+	methods map[string][]*ast.FuncDecl // methods by name (any receiver)
+}
+
+func loadInlPkg(relDir string) *inlPkg {
+	p := &inlPkg{fset: token.NewFileSet(), funcs: map[string][]*ast.FuncDecl{}, methods: map[string][]*ast.FuncDecl{}}
+	ents, err := os.ReadDir(filepath.Join(repo, relDir))
+	if err != nil {
+		return p
+	}
+	for _, e := range ents {
+		n := e.Name()
+		if e.IsDir() || !strings.HasSuffix(n, ".go") || strings.HasSuffix(n, "_test.go") || strings.HasSuffix(n, "_verif.go") {
+			continue
 		}
-		var hits []hit
-		if fd != nil && fd.Body != nil {
-			ast.Inspect(fd.Body, func(n ast.Node) bool {
+		f, err := parser.ParseFile(p.fset, filepath.Join(repo, relDir, n), nil, 0)
+		if err != nil {
+			continue
+		}
+		for _, d := range f.Decls {
+			if fd, ok := d.(*ast.FuncDecl); ok && fd.Body != nil {
+				if fd.Recv == nil {
+					p.funcs[fd.Name.Name] = append(p.funcs[fd.Name.Name], fd)
+				} else {
+					p.methods[fd.Name.Name] = append(p.methods[fd.Name.Name], fd)
+				}
+			}
+		}
+	}
+	return p
+}
+
+func (p *inlPkg) src(n ast.Node) string {
+	var b bytes.Buffer
+	printer.Fprint(&b, p.fset, n)
+	return strings.Join(strings.Fields(b.String()), "")
+}
+
+func (p *inlPkg) find(recv, name string) *ast.FuncDecl {
+	if recv == "" {
+		if l := p.funcs[name]; len(l) == 1 {
+			return l[0]
+		}
+		return nil
+	}
+	for _, fd := range p.methods[name] {
+		if len(fd.Recv.List) == 1 && typeName(fd.Recv.List[0].Type) == recv {
+			return fd
+		}
+	}
+	return nil
+}
+
+func unexported(name string) bool { return name != "" && name[0] >= 'a' && name[0] <= 'z' }
+
+// walkInlined visits the nodes of fd's call-inlined body in source order. event(n) says whether n is an atomic event
+// (returns its marker, "" otherwise); visit(n) sees every node (of the function and of every inlined callee).
+func (p *inlPkg) walkInlined(fd *ast.FuncDecl, event func(n ast.Node) string, emit func(string), visit func(n ast.Node)) {
+	if fd == nil || fd.Body == nil {
+		return
+	}
+	stack := map[*ast.BlockStmt]bool{}
+	var walkBody func(body *ast.BlockStmt, closures map[string]*ast.FuncLit, depth int)
+	walkBody = func(body *ast.BlockStmt, closures map[string]*ast.FuncLit, depth int) {
+		if body == nil || stack[body] || depth > 8 {
+			return
+		}
+		stack[body] = true
+		defer delete(stack, body)
+		var walk func(n ast.Node)
+		walk = func(root ast.Node) {
+			ast.Inspect(root, func(n ast.Node) bool {
 				if n == nil {
 					return true
 				}
-				if s := pick(n); s != "" {
-					hits = append(hits, hit{n.Pos(), s})
+				if visit != nil {
+					visit(n)
+				}
+				switch x := n.(type) {
+				case *ast.FuncLit:
+					return false // a closure that is only defined here: walked where it is called
+				case *ast.AssignStmt:
+					if len(x.Lhs) == 1 && len(x.Rhs) == 1 {
+						if id, ok := x.Lhs[0].(*ast.Ident); ok {
+							if lit, ok := x.Rhs[0].(*ast.FuncLit); ok {
+								closures[id.Name] = lit
+								return false
+							}
+						}
+					}
+					for _, r := range x.Rhs {
+						walk(r)
+					}
+					if m := event(x); m != "" {
+						emit(m)
+					}
+					return false
+				case *ast.CallExpr:
+					for _, a := range x.Args {
+						walk(a)
+					}
+					if sel, ok := x.Fun.(*ast.SelectorExpr); ok {
+						walk(sel.X)
+					}
+					if m := event(x); m != "" {
+						emit(m)
+						return false
+					}
+					switch f := x.Fun.(type) {
+					case *ast.FuncLit:
+						walkBody(f.Body, closures, depth+1)
+					case *ast.Ident:
+						if lit, ok := closures[f.Name]; ok {
+							walkBody(lit.Body, closures, depth+1)
+						} else if unexported(f.Name) {
+							if callee := p.find("", f.Name); callee != nil {
+								walkBody(callee.Body, map[string]*ast.FuncLit{}, depth+1)
+							}
+						}
+					case *ast.SelectorExpr:
+						if unexported(f.Sel.Name) && len(p.funcs[f.Sel.Name]) == 0 && len(p.methods[f.Sel.Name]) == 1 {
+							walkBody(p.methods[f.Sel.Name][0].Body, map[string]*ast.FuncLit{}, depth+1)
+						}
+					}
+					return false
 				}
 				return true
 			})
 		}
-		sort.SliceStable(hits, func(i, j int) bool { return hits[i].pos < hits[j].pos })
-		out := []string{}
-		for _, h := range hits {
-			out = append(out, h.s)
-		}
-		return out
+		walk(body)
 	}
-	src := func(fset *token.FileSet, n ast.Node) string {
-		var b bytes.Buffer
-		printer.Fprint(&b, fset, n)
-		return strings.Join(strings.Fields(b.String()), "")
-	}
-	callName := func(c *ast.CallExpr) string {
+	walkBody(fd.Body, map[string]*ast.FuncLit{}, 0)
+}
+
+func genStdAppsOrder() string {
+	pc := loadInlPkg(".")
+	callName := func(c *ast.CallExpr) (string, bool) {
 		switch f := c.Fun.(type) {
 		case *ast.Ident:
-			return f.Name
+			return f.Name, false
 		case *ast.SelectorExpr:
-			return f.Sel.Name
+			return f.Sel.Name, true
 		}
-		return ""
+		return "", false
 	}
-	pickCalls := func(fset *token.FileSet, names ...string) func(n ast.Node) string {
+	// the events of the load path (atomic: never followed)
+	eventsOf := func(p *inlPkg, atomic ...string) func(n ast.Node) string {
 		return func(n ast.Node) string {
 			switch x := n.(type) {
 			case *ast.CallExpr:
-				nm := callName(x)
-				for _, w := range names {
-					if nm != w {
-						continue
+				nm, isSel := callName(x)
+				if isSel && len(x.Args) == 0 && (nm == "Start" || nm == "Stop") {
+					return "app." + nm
+				}
+				if nm == "emitEvent" && len(x.Args) > 0 {
+					return "emitEvent:" + strings.Trim(p.src(x.Args[0]), "\"")
+				}
+				for _, w := range atomic {
+					if nm == w {
+						return nm
 					}
-					if nm == "emitEvent" && len(x.Args) > 0 {
-						return "emitEvent:" + strings.Trim(src(fset, x.Args[0]), "\"")
-					}
-					return nm
 				}
 			case *ast.AssignStmt:
-				if len(x.Lhs) == 1 {
+				if len(x.Lhs) == 1 && len(x.Rhs) == 1 {
 					if id, ok := x.Lhs[0].(*ast.Ident); ok && id.Name == "currentCtx" {
-						return "currentCtx=" + src(fset, x.Rhs[0])
+						return "currentCtx=" + p.src(x.Rhs[0])
 					}
 				}
 			}
 			return ""
 		}
 	}
-	run := markers(fsetC, findFunc(fc, "", "run"), pickCalls(fsetC, "provisionContext", "provisionAdminRouters", "Start", "emitEvent", "finishSettingUp", "unsyncedStop"))
-	ustop := markers(fsetC, findFunc(fc, "", "unsyncedStop"), pickCalls(fsetC, "emitEvent", "Stop", "cancelFunc"))
-	stop := markers(fsetC, findFunc(fc, "", "Stop"), pickCalls(fsetC, "unsyncedStop"))
-	validate := markers(fsetC, findFunc(fc, "", "Validate"), pickCalls(fsetC, "run", "cancelFunc", "restoreDefaultStorage", "restoreDefaultLogger"))
+	seq := func(p *inlPkg, fd *ast.FuncDecl, ev func(n ast.Node) string) []string {
+		out := []string{}
+		p.walkInlined(fd, ev, func(m string) { out = append(out, m) }, nil)
+		return out
+	}
+	common := []string{"provisionContext", "provisionAdminRouters", "finishSettingUp", "cancelFunc", "restoreDefaultStorage", "restoreDefaultLogger"}
+	run := seq(pc, pc.find("", "run"), eventsOf(pc, common...))
+	ustop := seq(pc, pc.find("", "unsyncedStop"), eventsOf(pc, common...))
+	stop := seq(pc, pc.find("", "Stop"), eventsOf(pc, common...))
+	validate := seq(pc, pc.find("", "Validate"), eventsOf(pc, append([]string{"run"}, common...)...))
 
-	fsetT, ft := parseFile("modules/caddytls/tls.go")
+	pt := loadInlPkg("modules/caddytls")
 	succInit, succCond := "", ""
-	if fd := findFunc(ft, "TLS", "Cleanup"); fd != nil && fd.Body != nil {
-		ast.Inspect(fd.Body, func(n ast.Node) bool {
-			if is, ok := n.(*ast.IfStmt); ok && is.Init != nil && succInit == "" {
-				if as, ok := is.Init.(*ast.AssignStmt); ok && len(as.Rhs) == 1 && strings.Contains(src(fsetT, as.Rhs[0]), "AppIfConfigured") {
-					succInit = src(fsetT, as.Rhs[0])
-					succCond = src(fsetT, is.Cond)
-				}
-			}
-			return true
-		})
-	}
-	// TLS.Provision: inside the loop over the loaded certificates — the statements of the innermost block that
-	// contains the CacheUnmanagedTLSCertificate call, as markers
 	var cacheBlock []string
-	if fd := findFunc(ft, "TLS", "Provision"); fd != nil && fd.Body != nil {
-		ast.Inspect(fd.Body, func(n ast.Node) bool {
-			bl, ok := n.(*ast.BlockStmt)
-			if !ok {
-				return true
+	none := func(ast.Node) string { return "" }
+	pt.walkInlined(pt.find("TLS", "Cleanup"), none, func(string) {}, func(n ast.Node) {
+		if is, ok := n.(*ast.IfStmt); ok && is.Init != nil && succInit == "" {
+			if as, ok := is.Init.(*ast.AssignStmt); ok && len(as.Rhs) == 1 && strings.Contains(pt.src(as.Rhs[0]), "AppIfConfigured") {
+				succInit = pt.src(as.Rhs[0])
+				succCond = pt.src(is.Cond)
 			}
-			direct := false
-			for _, st := range bl.List {
-				if as, ok := st.(*ast.AssignStmt); ok && len(as.Rhs) == 1 && strings.Contains(src(fsetT, as.Rhs[0]), "CacheUnmanagedTLSCertificate(") {
-					direct = true
-				}
+		}
+	})
+	pt.walkInlined(pt.find("TLS", "Provision"), none, func(string) {}, func(n ast.Node) {
+		bl, ok := n.(*ast.BlockStmt)
+		if !ok || cacheBlock != nil {
+			return
+		}
+		direct := false
+		for _, st := range bl.List {
+			if as, ok := st.(*ast.AssignStmt); ok && len(as.Rhs) == 1 && strings.Contains(pt.src(as.Rhs[0]), "CacheUnmanagedTLSCertificate(") {
+				direct = true
 			}
-			if !direct {
-				return true
+		}
+		if !direct {
+			return
+		}
+		cacheBlock = []string{}
+		for _, st := range bl.List {
+			switch x := st.(type) {
+			case *ast.AssignStmt:
+				cacheBlock = append(cacheBlock, "assign:"+pt.src(x.Lhs[len(x.Lhs)-1])+"<-"+strings.SplitN(pt.src(x.Rhs[0]), "(", 2)[0])
+			case *ast.IfStmt:
+				cacheBlock = append(cacheBlock, "if:"+pt.src(x.Cond))
+			default:
+				cacheBlock = append(cacheBlock, "other")
 			}
-			cacheBlock = nil
-			for _, st := range bl.List {
-				switch x := st.(type) {
-				case *ast.AssignStmt:
-					cacheBlock = append(cacheBlock, "assign:"+src(fsetT, x.Lhs[len(x.Lhs)-1])+"<-"+strings.SplitN(src(fsetT, x.Rhs[0]), "(", 2)[0])
-				case *ast.IfStmt:
-					cacheBlock = append(cacheBlock, "if:"+src(fsetT, x.Cond))
-				default:
-					cacheBlock = append(cacheBlock, "other")
-				}
-			}
-			return true
-		})
-	}
+		}
+	})
 	if cacheBlock == nil {
 		cacheBlock = []string{}
 	}
 
 	var sb strings.Builder
 	sb.WriteString(header)
-	sb.WriteString("/-- caddy.go:run — the load path's phases, in source order -/\n")
+	sb.WriteString("/-- caddy.go:run — the events of the load path, call-inlined, in source order -/\n")
 	sb.WriteString("def runPhaseOrder : List String := " + leanStrList(run) + "\n\n")
-	sb.WriteString("/-- caddy.go:unsyncedStop — event, app stops, module cleanup, in source order -/\n")
+	sb.WriteString("/-- caddy.go:unsyncedStop — event, app stops, module cleanup -/\n")
 	sb.WriteString("def unsyncedStopOrder : List String := " + leanStrList(ustop) + "\n\n")
-	sb.WriteString("/-- caddy.go:Stop — unsyncedStop and every assignment to currentCtx, in source order -/\n")
+	sb.WriteString("/-- caddy.go:Stop — call-inlined: the stop events and every assignment to currentCtx -/\n")
 	sb.WriteString("def stopOrder : List String := " + leanStrList(stop) + "\n\n")
-	sb.WriteString("/-- caddy.go:Validate -/\n")
+	sb.WriteString("/-- caddy.go:Validate — call-inlined (run is atomic) -/\n")
 	sb.WriteString("def validateOrder : List String := " + leanStrList(validate) + "\n\n")
 	sb.WriteString("/-- caddytls TLS.Cleanup: where the successor tls app is looked up, and the condition under which one is assumed -/\n")
 	sb.WriteString("def tlsCleanupSuccessorLookup : String := " + leanStr(succInit) + "\n")
